@@ -1,5 +1,6 @@
 import SqlgrepModel.Lemmas.ValueOrder
 import SqlgrepModel.Lemmas.FloatOrder
+import SqlgrepModel.Lemmas.NumericOrder
 /-
 C16 — value equality, ordering and hashing agree and form a total order.
 
@@ -157,6 +158,103 @@ example : F64.isInf 0xfff0000000000000 = true ∧ F64.signBit 0xfff0000000000000
     F64.isFinite 0x7fefffffffffffff = true := by decide
 example : F64.isNaN 0x7ff8000000000000 = true ∧ F64.isNaN 0xfff0000000000001 = true ∧ F64.isNaN 0x7ff0000000000000 = false := by decide
 example : F64.isNaN 0x8000000000000000 = false ∧ (0x8000000000000000 : Nat) < 2 ^ 64 ∧ F64.mag 0x8000000000000000 = 0 := by decide
+
+/-! ## NEW (review gap 2): INT × REAL — the WHERE order (`compareValues`, used by `Compare` and `IN`)
+
+`compareValues` is `Value.cmp` except for an INT against a REAL, which go through `F64.cmpIntReal`
+(`compare_int_float`). `numValue v` is the exact value of a finite number (`Dy.ofInt i` / `F64.value n`);
+`numClass`/`numUnits` (Lemmas/NumericOrder.lean) are the order key of any number: class −1 (−inf), 0 (INT,
+finite REAL), 1 (+inf), 2 (NaN), then the exact value in units of 2^-1074. INT is any `Int` (no i64 bound needed). -/
+
+/-- **Numbers compare by numeric value**: any mix of INT and finite REAL is ordered by `compareValues`
+exactly as the exact values are; in particular an INT and a REAL of equal value are equal (not ordered by
+type), and `2^53 + 1 > 2^53 as REAL` although `(2^53+1) as f64 == 2^53`. -/
+theorem numbers_compare_by_value (a b : Value) (ha : isFiniteNumber a = true) (hb : isFiniteNumber b = true) :
+    compareValues a b = Dy.cmp (numValue a) (numValue b) ∧
+    (compareValues a b = .lt ↔ numValue a < numValue b) ∧
+    (compareValues a b = .eq ↔ Dy.Eqv (numValue a) (numValue b)) ∧
+    (compareValues a b = .gt ↔ numValue b < numValue a) := by
+  have h := compareValues_eq_value_cmp a b ha hb
+  refine ⟨h, by rw [h]; exact Iff.rfl, by rw [h]; exact Iff.rfl, ?_⟩
+  rw [h, Dy.lt_def, Dy.cmp_swap (numValue a) (numValue b)]
+  cases Dy.cmp (numValue a) (numValue b) <;> simp [Ordering.swap]
+
+/-- INT = REAL exactly when the REAL is finite and its value is that integer -/
+theorem int_eq_real_iff (i : Int) (b : Nat) :
+    compareValues (.int i) (.real b) = .eq ↔ (F64.isFinite b = true ∧ Dy.Eqv (F64.value b) (Dy.ofInt i)) := by
+  rcases F64.classify b with ⟨fb, ib, nb⟩ | ⟨fb, ib, nb⟩ | ⟨fb, ib, nb⟩
+  · have h := compareValues_eq_value_cmp (.int i) (.real b) rfl fb
+    rw [h]; simp only [fb, true_and, numValue]
+    exact ⟨Dy.eqv_symm, Dy.eqv_symm⟩
+  · simp only [compareValues, F64.cmpIntReal_inf i b ib, fb]
+    cases F64.signBit b <;> simp
+  · simp [compareValues, F64.cmpIntReal_nan i b nb, fb]
+
+/-- non-finite REAL operands against an INT: `-inf` is below and `+inf` above every INT; NaN is ABOVE
+every INT (`compare_int_float` answers `Less` for a NaN right operand, and the REAL-on-the-left case is its
+mirror image), consistently with NaN being the greatest REAL in the derived order. -/
+theorem int_vs_nonfinite_real (i : Int) (b : Nat) :
+    (F64.isNaN b = true → compareValues (.int i) (.real b) = .lt ∧ compareValues (.real b) (.int i) = .gt) ∧
+    (F64.isInf b = true → F64.signBit b = false →
+      compareValues (.int i) (.real b) = .lt ∧ compareValues (.real b) (.int i) = .gt) ∧
+    (F64.isInf b = true → F64.signBit b = true →
+      compareValues (.int i) (.real b) = .gt ∧ compareValues (.real b) (.int i) = .lt) := by
+  refine ⟨fun h => ?_, fun h s => ?_, fun h s => ?_⟩
+  · simp [compareValues, F64.cmpIntReal_nan i b h, Ordering.swap]
+  · simp [compareValues, F64.cmpIntReal_inf i b h, s, Ordering.swap]
+  · simp [compareValues, F64.cmpIntReal_inf i b h, s, Ordering.swap]
+
+/-- **The WHERE order is a total preorder on numbers** — all INTs and all REAL bit patterns (±0, subnormals,
+±inf and NaN included, NaN being one class above everything), across all eight INT/REAL mixes of a triple:
+reflexive; `b ? a` is the mirror image of `a ? b` (so exactly one of <, =, > holds and it is antisymmetric up
+to numeric equality); `<` is transitive; `=` is a congruence (`a = b` ⇒ `a ? c` is `b ? c`, `c ? a` is `c ? b`);
+`≤` is transitive. It is the order of the integer key `(numClass, numUnits)`. -/
+theorem where_order_is_total_on_numbers (a b c : Value)
+    (ha : isNumber a = true) (hb : isNumber b = true) (hc : isNumber c = true) :
+    compareValues a a = .eq ∧
+    compareValues b a = (compareValues a b).swap ∧
+    (compareValues a b = .lt → compareValues b c = .lt → compareValues a c = .lt) ∧
+    (compareValues a b = .eq → compareValues a c = compareValues b c) ∧
+    (compareValues b c = .eq → compareValues a c = compareValues a b) ∧
+    (compareValues a b ≠ .gt → compareValues b c ≠ .gt → compareValues a c ≠ .gt) ∧
+    compareValues a b = (compare (numClass a) (numClass b)).then (compare (numUnits a) (numUnits b)) := by
+  have t := compareValues_T a b c ha hb hc
+  refine ⟨compareValues_refl a, compareValues_swap a b, t.1, t.2.1, t.2.2, ?_, compareValues_eq_key a b ha hb⟩
+  unfold T at t
+  cases h : compareValues a b <;> cases h' : compareValues b c <;> simp_all
+
+/-- **The WHERE order agrees with the GROUP BY / MIN / MAX / array_unique order on operands of one type**
+(and on every other pair that is not an INT/REAL mix): `compareValues` IS `Value.cmp` there, so all laws
+above (`trichotomy`, `lt_trans`, …) are laws of WHERE comparisons of same-type operands. (For an INT against
+a REAL the two orders differ: finding D45 below.) -/
+theorem where_order_agrees_with_group_order_same_type (a b : Value)
+    (h : a.valueType = b.valueType ∨ a.rank = b.rank) : compareValues a b = cmp a b := by
+  apply compareValues_eq_cmp
+  rintro (⟨i, n, rfl, rfl⟩ | ⟨i, n, rfl, rfl⟩) <;> simp [valueType, rank] at h
+
+/-- the only pairs on which the two orders can differ are INT/REAL mixes -/
+theorem where_order_differs_only_on_int_real (a b : Value)
+    (h : ¬ ((∃ i n, a = .int i ∧ b = .real n) ∨ (∃ i n, a = .real n ∧ b = .int i))) :
+    compareValues a b = cmp a b := compareValues_eq_cmp a b h
+
+-- (comparing an INT with a subnormal/zero scales by 2^1074: let `decide` evaluate that power)
+set_option exponentiation.threshold 2200
+-- non-vacuity: 2^53+1 as INT vs 2^53 as REAL (0x4340000000000000); 2 vs 1.5; 0 vs -0.0; mixes in a chain
+example : isFiniteNumber (.int (2 ^ 53 + 1)) = true ∧ isFiniteNumber (.real 0x4340000000000000) = true ∧
+    compareValues (.int (2 ^ 53 + 1)) (.real 0x4340000000000000) = .gt ∧
+    compareValues (.int (2 ^ 53)) (.real 0x4340000000000000) = .eq ∧
+    numValue (.real 0x4340000000000000) < numValue (.int (2 ^ 53 + 1)) := by decide
+example : compareValues (.int 2) (.real 0x3ff8000000000000) = .gt ∧ compareValues (.real 0x3ff8000000000000) (.int 2) = .lt ∧
+    compareValues (.int 0) (.real 0x8000000000000000) = .eq := by decide
+example : F64.isFinite 0x4340000000000000 = true ∧ Dy.Eqv (F64.value 0x4340000000000000) (Dy.ofInt (2 ^ 53)) := by decide
+-- a (REAL, INT, REAL) triple for transitivity: 1.5 < 2 < 2.5 (0x4004000000000000)
+example : compareValues (.real 0x3ff8000000000000) (.int 2) = .lt ∧ compareValues (.int 2) (.real 0x4004000000000000) = .lt ∧
+    compareValues (.real 0x3ff8000000000000) (.real 0x4004000000000000) = .lt := by decide
+-- an (INT, REAL, INT) triple with equality: 3 = 3.0 (0x4008000000000000) = 3
+example : compareValues (.int 3) (.real 0x4008000000000000) = .eq ∧ compareValues (.real 0x4008000000000000) (.int 3) = .eq := by decide
+example : F64.isNaN 0x7ff8000000000000 = true ∧ compareValues (.int (2 ^ 63 - 1)) (.real 0x7ff8000000000000) = .lt ∧
+    compareValues (.int (-(2 ^ 63))) (.real 0xfff0000000000000) = .gt := by decide
+example : (Value.int 1).valueType = (Value.int 2).valueType ∧ (Value.real 0).rank = (Value.real 1).rank := by decide
 
 /-- KNOWN FINDING D45 (kept as a kernel-checked witness): in the *derived* order, used for GROUP BY
 keys, MIN/MAX, PERCENTILE and array_unique, an INT and a REAL are ordered by their type, not by
